@@ -207,6 +207,7 @@ func (fr *Frame) unknownCall(x *ssa.Call, name string, st *State, rch Term) Val 
 
 func (fr *Frame) callByContract(x *ssa.Call, fn *ssa.Function, c *Contract, args []Val, st *State, rch Term, site string) Val {
 	vc := fr.vc
+	vc.calledByContract[fn] = true
 	pre := st.clone()
 	env := &SpecEnv{fr: fr, fn: fn, params: map[string]Val{}, cur: pre, old: pre, bound: map[string]SVal{}, lets: map[string]SVal{}, callee: true}
 	for i, p := range fn.Params {
@@ -382,4 +383,60 @@ func (eng *Engine) inlinable(fn *ssa.Function) bool {
 		return true
 	}
 	return false
+}
+
+// encoding/binary.BigEndian: arithmetic definitions.  PutUintN(b, v) stores the
+// unique base-256 digits c_i of v (v = sum c_i*256^(n-1-i), 0 <= c_i <= 255);
+// UintN(b) is that sum.  This is the meaning of the shift/convert bodies in
+// the standard library (byte(v>>k) = (v div 2^k) mod 256); using the digit
+// form keeps the queries linear.
+func init() {
+	for _, n := range []int{2, 4, 8} {
+		n := n
+		bits := n * 8
+		put := func(fr *Frame, x *ssa.Call, args []Val, st *State, rch Term) Val {
+			vc := fr.vc
+			b, v := args[len(args)-2], args[len(args)-1]
+			fr.safety("bounds", x, rch, sx("<=", itoa(int64(n)), b.C[1]))
+			vc.regFam("E$uint8", "Int")
+			h := vc.get(st, "E$uint8")
+			var sum []Term
+			for i := 0; i < n; i++ {
+				c := vc.fresh(fmt.Sprintf("be%d.c%d", bits, i), "Int")
+				vc.assume(and(sx("<=", "0", c), sx("<=", c, "255")))
+				if i == n-1 {
+					sum = append(sum, c)
+				} else {
+					sum = append(sum, sx("*", pow2T(uint(8*(n-1-i))), c))
+				}
+				h = store(h, add(b.C[0], itoa(int64(i))), c)
+			}
+			vc.assume(eq(v.t(), sx("+", sum...)))
+			vc.set(st, "E$uint8", h)
+			return Val{T: x.Type()}
+		}
+		get := func(fr *Frame, x *ssa.Call, args []Val, st *State, rch Term) Val {
+			vc := fr.vc
+			b := args[len(args)-1]
+			fr.safety("bounds", x, rch, sx("<=", itoa(int64(n)), b.C[1]))
+			vc.regFam("E$uint8", "Int")
+			h := vc.get(st, "E$uint8")
+			var sum []Term
+			for i := 0; i < n; i++ {
+				c := sel(h, add(b.C[0], itoa(int64(i))))
+				vc.assume(implies(rch, and(sx("<=", "0", c), sx("<=", c, "255"))))
+				if i == n-1 {
+					sum = append(sum, c)
+				} else {
+					sum = append(sum, sx("*", pow2T(uint(8*(n-1-i))), c))
+				}
+			}
+			return Val{T: x.Type(), C: []Term{vc.define("be", "Int", sx("+", sum...))}}
+		}
+		intrinsics[fmt.Sprintf("(encoding/binary.bigEndian).PutUint%d", bits)] = put
+		intrinsics[fmt.Sprintf("(encoding/binary.bigEndian).Uint%d", bits)] = get
+		m := newModset()
+		m.fams["E$uint8"] = "Int"
+		intrinsicMods[fmt.Sprintf("(encoding/binary.bigEndian).PutUint%d", bits)] = m
+	}
 }
